@@ -101,6 +101,23 @@ def cases(tier, seed):
                        'nmin': 2400},
                 'n_tuples': 2600,
                 'seed': int(r.randint(1000))})
+  # runs that stop by their own convergence test at ordinary tolerances
+  for i in range(24 if q else 800):
+    r = rng_for('c11-rest', seed, i)
+    name = 'ITML_Supervised' if i % 4 == 3 else 'ITML'
+    pr = {'prior': PRIORS[(i // 2) % 4], 'gamma': GAMMAS[(i // 3) % 6],
+          'max_iter': 5000, 'tol': [1e-3, 1e-5, 1e-8, 1e-2][i % 4]}
+    if name == 'ITML_Supervised':
+      pr['n_constraints'] = int(r.choice([10, 25, 40]))
+    out.append({'est': name, 'params': pr,
+                'mode': ['explicit', 'default', 'euclid'][i % 3],
+                'scale': [1.0, 1e3, 1e-4][(i // 5) % 3],
+                'ds': {'seed': int(r.randint(2**31 - 1)),
+                       'd': int(r.randint(2, 6)),
+                       'classes': int(r.randint(2, 4)), 'variant': 'plain',
+                       'nmax': 40},
+                'n_tuples': int(r.choice([12, 20, 30, 60])),
+                'seed': int(r.randint(1000))})
   # points far from the origin: the default bounds are percentiles of
   # *distances*, which do not know where the origin is
   for i in range(6 if q else 120):
@@ -129,7 +146,8 @@ def required(tier):
           'C11.primal-feasible': n // 6, 'C11.complementary-slackness': n // 6,
           'C11.satisfied-prior-returned': 3 if q else 40,
           'C11.prior-is-documented': n,
-          'C11.default-bounds-documented': n // 6}
+          'C11.default-bounds-documented': n // 6,
+          'C11.converged-means-at-rest': n // 2}
 
 
 def run_case(spec, j):
@@ -315,6 +333,36 @@ def run_case(spec, j):
             bool(np.all(cs <= rtol_i * lam * xi + 1e-300)),
             dict(det, worst=float((np.abs(pM - xi) / xi)[lam > 0].max())
                  if (lam > 0).any() else 0.0, n_iter=n_iter))
+  # "converged" = the iteration has come to rest: when fit stopped before its
+  # budget, one more sweep of the documented cyclic projections (re-executed
+  # here from the captured state) must not move the dual variables by more
+  # than the tolerance it stopped for (factor 10 for non-monotone tails)
+  if n_iter < p['max_iter'] and p['tol'] > 0 and (lam > 0).any() and \
+          'A' in vals:
+    A_ = np.array(vals['A'], dtype=float, copy=True)
+    l_ = lam.copy()
+    x_ = xi.copy()
+    g_inf = not np.isfinite(float(gamma))
+    gp = 1.0 if g_inf else float(gamma) / (float(gamma) + 1.0)
+    for i_, v_ in enumerate(Vs):
+      pv = float(v_.dot(A_).dot(v_))
+      if ysolver[i_] > 0:
+        a_ = min(l_[i_], gp * (1.0 / pv - 1.0 / x_[i_]))
+        b_ = a_ / (1.0 - a_ * pv)
+        x_[i_] = 1.0 / (1.0 / x_[i_] + (0.0 if g_inf else a_ / float(gamma)))
+      else:
+        a_ = min(l_[i_], gp * (1.0 / x_[i_] - 1.0 / pv))
+        b_ = -a_ / (1.0 + a_ * pv)
+        x_[i_] = 1.0 / (1.0 / x_[i_] - (0.0 if g_inf else a_ / float(gamma)))
+      l_[i_] -= a_
+      Av = A_.dot(v_)
+      A_ += b_ * np.outer(Av, Av)
+    moved = float(np.abs(l_ - lam).sum() /
+                  (np.linalg.norm(l_) + np.linalg.norm(lam)))
+    j.close('C11.converged-means-at-rest', moved, 0.0,
+            10 * p['tol'] + 1e-9 * max(1.0, cond * 1e-6),
+            dict(det, n_iter=n_iter, tol=p['tol'],
+                 relative_dual_change_of_one_more_sweep=moved))
   if spec['mode'] == 'satisfied':
     j.check('C11.satisfied-prior-returned',
             bool(np.all(lam == 0)) and
